@@ -134,7 +134,11 @@ func newChainRun(hops []hopSpec) *chainRun {
 				inner.ServeHTTP(w, r)
 			})
 			if h.Wire {
-				c.servers[i] = httptest.NewServer(c.http[i])
+				srv, err := startServer(c.http[i])
+				if err != nil {
+					panic(err.Error())
+				}
+				c.servers[i] = srv
 			}
 		case "unary":
 			rt, opts := h.Trace.build(grpcOptionFuncs)
@@ -519,7 +523,7 @@ func hopSpecGen(t *rapid.T, i int, asciiRID string) hopSpec {
 	h := hopSpec{}
 	h.Proto = rapid.SampledFrom([]string{"http", "http", "unary", "stream"}).Draw(t, label+"proto")
 	if h.Proto == "http" {
-		h.Wire = rapid.IntRange(0, 5).Draw(t, label+"wire") == 0
+		h.Wire = rapid.IntRange(0, 5).Draw(t, label+"wire") == 0 && realSocket()
 		h.Path = rapid.SampledFrom(httpPaths).Draw(t, label+"path")
 		h.Query = rapid.SampledFrom(httpQueries).Draw(t, label+"query")
 	} else {
